@@ -170,8 +170,12 @@ def gen_history(rng, tier='quick', p_unresolvable=0.0):
             prefer_start = False
             i = rng.choice(new)
             op = {'op': 'start', 'c': i, 'cut': None}
-            if rng.random() < 0.12:
-                op['cut'] = [rng.choice(['kill', 'kill', 'error', 'error2']), round(rng.random(), 3)]
+            if rng.random() < 0.15:
+                op['cut'] = [rng.choice(['kill', 'kill', 'error', 'error2', 'timeout', 'timeout']), round(rng.random(), 3)]
+                if op['cut'][0] == 'timeout':
+                    # one of the four resource services does not answer the container's request in time (the presence
+                    # service is asked last, when the private network is set up already)
+                    op['cut'][1] = rng.choice(['presence', 'presence', 'network', 'cgroup', 'localdisk'])
             ops.append(op)
             stage[i] = 'started'
         elif live and (r < 0.92 or not done):
@@ -189,8 +193,13 @@ def gen_history(rng, tier='quick', p_unresolvable=0.0):
                     op['cut'] = ['kill_at', 'clt_del_request:done']
                     prefer_start = True
                 else:
-                    op['cut'] = [rng.choice(['kill', 'kill', 'error', 'error2', 'ioerror', 'ioerror_reply']),
+                    op['cut'] = [rng.choice(['kill', 'kill', 'error', 'error2', 'ioerror', 'ioerror_reply',
+                                             'other_worker', 'other_worker']),
                                  round(rng.random(), 3)]
+                    if op['cut'][0] == 'other_worker':
+                        # a second cleanup worker finishes the same container at the same moment and gets ahead of this
+                        # one at the delete of one resource service request
+                        op['cut'][1] = rng.choice(['localdisk', 'cgroup', 'presence', 'network'])
             else:
                 op['repeat'] = rng.choice([0, 0, 1, 1, 2])
                 stage[i] = 'finished'
